@@ -867,6 +867,11 @@ func (x *Exec) specEnvAt(b *ssa.BasicBlock, rp *retPoint) *SpecEnv {
 				if b != nil && !(blk == b || blk.Dominates(b)) {
 					continue
 				}
+				if prev, ok := env.vars[id.Name()]; ok && prev.Cell != nil {
+					// the variable lives in a cell: always read through it (a value
+					// loaded earlier may be stale)
+					continue
+				}
 				env.vars[id.Name()] = SpecVal{V: val, Go: i.X.Type()}
 			}
 		}
